@@ -76,6 +76,27 @@ def dump_tables(project):
         if hasattr(s, "calls") and not isinstance(s, sf.FortranModule):
             for c in s.calls:
                 out["refs"].append([sname, "call", "", origin(c) if not isinstance(c, str) else ["<unresolved>", c.lower()]])
+    # scopes nested in modules that may carry their own USE statements
+    out["inner"] = {}
+    for m in project.modules:
+        inner = [(p.name, p) for p in list(getattr(m, "subroutines", [])) + list(getattr(m, "functions", []))]
+        for intr in getattr(m, "interfaces", []):
+            p = getattr(intr, "procedure", None)
+            if p is not None and not getattr(intr, "generic", False):
+                inner.append((intr.name, p))
+        for nm, p in inner:
+            key = "%s::%s" % (m.name.lower(), str(nm).lower())
+            t = {}
+            for cls, attr in (("procs", "all_procs"), ("types", "all_types"), ("vars", "all_vars"),
+                              ("absints", "all_absinterfaces")):
+                d = getattr(p, attr, {}) or {}
+                t[cls] = {k: origin(v) for k, v in sorted(d.items())}
+            out["inner"][key] = t
+            for a in getattr(p, "args", []) or []:
+                proto = getattr(a, "proto", None)
+                if proto and getattr(a, "vartype", "") == "type":
+                    out["refs"].append([key, "argtype", str(getattr(a, "name", "")).lower(),
+                                        origin(proto[0]) if not isinstance(proto[0], str) else ["<unresolved>", str(proto[0]).lower()]])
     out["refs"].sort()
     return out
 
